@@ -60,7 +60,8 @@ def cells(tier):
         out.append({'kind': 'stls_server', 't': t if follow == 0 else 2,
                     'follow': follow})
     out.append({'kind': 'stls_client', 't': 4})
-    for shape in range(14):
+    out.append({'kind': 'stls_seq', 't': 2})
+    for shape in range(len(SHAPES)):
         out.append({'kind': 'auth', 'shape': shape,
                     'g': 3 if tier == 'quick' else 4})
     return out
@@ -247,6 +248,48 @@ def run_stls_server(cell):
                       want=w.decode(), **info)
 
 
+def run_stls_seq(cell):
+    """a real session prefix, STARTTLS (+ pipelined bytes), then EHLO / RCPT
+    / STARTTLS over the TLS channel"""
+    from slimta.smtp.server import Server
+    from slimta.smtp import ConnectionLost
+    prefixes = [[b'EHLO one'], [b'EHLO one', b'MAIL FROM:<a@b>'],
+                [b'EHLO one', b'MAIL FROM:<a@b>', b'RCPT TO:<c@d>'],
+                [b'EHLO one', b'EHLO two'], [b'HELO one', b'EHLO two']]
+    pre = prefixes[api.choice('prefix', len(prefixes))]
+    tail = api.sbytes('tail', cell['t'])
+    follow = FOLLOW[3]
+    ctx = FakeContext(list(follow))
+    handlers = TlsRec(lambda name: None)
+    sock = FakeSocket([ln + b'\r\n' for ln in pre] +
+                      [b'STARTTLS\r\n' + tail], eof=True)
+    server = Server(sock, handlers, ('10.0.0.1', 1234), context=ctx)
+    try:
+        server.handle()
+    except ConnectionLost:
+        pass
+    except api.Unsupported:
+        raise
+    except Exception as e:
+        api.fail('session-raised', exc=type(e).__name__)
+        return
+    info = dict(prefix=[p.decode() for p in pre])
+    if not api.prove(len(ctx.wrapped) == 1, 'no-handshake', **info):
+        return
+    tls = ctx.wrapped[0]
+    codes = split_replies(tls)
+    api.observe('tls_codes', codes)
+    api.prove(len(codes) == 3, 'plaintext-bytes-executed-after-handshake',
+              n=len(codes), **info)
+    if len(codes) == 3:
+        api.prove(And(codes[0] == b'250', codes[1] == b'503',
+                      codes[2] == b'500'), 'post-handshake-reply-differs',
+                  **info)
+    api.prove(b'STARTTLS' not in tls.wire(), 'STARTTLS-still-offered', **info)
+    api.prove(b'STARTTLS' in sock.wire() or pre[0][:4] == b'HELO',
+              'STARTTLS-never-offered', **info)
+
+
 def run_stls_client(cell):
     from slimta.smtp.client import Client
     t = cell['t']
@@ -283,7 +326,8 @@ def run_stls_client(cell):
 SHAPES = ['plain-initial', 'plain-challenge', 'login', 'cram',
           'plain-unicode', 'plain-empty-secret', 'cancel', 'bad-b64-initial',
           'bad-b64-challenge', 'unknown-mech', 'no-arg', 'garbage-mech',
-          'plain-extra-space', 'lowercase']
+          'plain-extra-space', 'lowercase', 'plain-nonutf8',
+          'login-nonutf8', 'plain-challenge-nonutf8']
 
 
 def run_auth(cell):
@@ -334,6 +378,15 @@ def run_auth(cell):
         malformed = True
     elif shape == 'bad-b64-challenge':
         lines = [b'AUTH LOGIN', b'*' + api.sbytes('garbage', g, 0x21, 0x7e)]
+        malformed = True
+    elif shape == 'plain-nonutf8':
+        lines = [b'AUTH PLAIN ' + b64(b'\x00\xff\x00\xff')]
+        malformed = True
+    elif shape == 'login-nonutf8':
+        lines = [b'AUTH LOGIN', b64(b'user'), b64(b'\x80')]
+        malformed = True
+    elif shape == 'plain-challenge-nonutf8':
+        lines = [b'AUTH PLAIN', b64(b'\x00user\xc3\x00pw')]
         malformed = True
     elif shape == 'unknown-mech':
         lines = [b'AUTH GSSAPI abc']
